@@ -1,15 +1,21 @@
-"""C20 facts: constants and small code shapes of the csvfile / line / text adapters and of
-normalize_fieldname  ->  coq/gen/Gen_text.v.
+"""C20 facts: layout constants of the csvfile / line / text adapters and of normalize_fieldname -> coq/gen/Gen_text.v.
 
-Live values (import) where a value is the fact; `ast` where the shape of a call is the fact (which
-arguments `open` / `.encode` / `csv.DictWriter` get, the f-strings of LineWriter.write, the header test of
-CsvfileWriter.write).  Fail closed on anything not recognised."""
+The writers' facts are OBSERVED (factgen/_c20_observe.py): every layout parameter is read off the bytes the real
+writer produces on probe records and must predict a second battery exactly (fail closed otherwise).  The `ast`
+recognisers of this file are CROSS-CHECKS: they inline private helper methods one level, resolve module constants and
+tolerate renamed locals; when they recognise the source and it CONTRADICTS the observation the translator fails closed,
+when they merely do not recognise a spelling the observation is used and a note is written into the generated file.
+Only what cannot be observed here (the newline= argument of the CSV file) rests on the source alone."""
 from __future__ import annotations
 
 import ast
+import copy
 import inspect
 import re
+import sys
 import textwrap
+
+from vf.factgen import _c20_observe as observe
 
 from vf.coqlit import cbool
 from vf.factlib import GEN, HEADER, Unsupported, write_if_changed
@@ -33,6 +39,72 @@ def _fn_ast(fn):
     if not isinstance(node, (ast.FunctionDef,)):
         raise Unsupported("not a def: %r" % fn)
     return node
+
+
+class _Subst(ast.NodeTransformer):
+    def __init__(self, env):
+        self.env = env
+
+    def visit_Name(self, node):
+        if isinstance(node.ctx, ast.Load) and node.id in self.env:
+            return copy.deepcopy(self.env[node.id])
+        return node
+
+
+class _Inliner(ast.NodeTransformer):
+    """replaces a statement `self._helper(args)` by the helper's body (parameters substituted), one level"""
+
+    def __init__(self, methods, current):
+        self.methods, self.current = methods, current
+
+    def visit_Expr(self, node):
+        c = node.value
+        if not (isinstance(c, ast.Call) and isinstance(c.func, ast.Attribute) and isinstance(c.func.value, ast.Name)
+                and c.func.value.id == "self" and c.func.attr in self.methods and c.func.attr != self.current):
+            return node
+        h = self.methods[c.func.attr]
+        params = [a.arg for a in h.args.args][1:]
+        if h.args.vararg or h.args.kwarg or h.args.kwonlyargs or any(isinstance(a, ast.Starred) for a in c.args) \
+                or any(k.arg is None for k in c.keywords) or len(c.args) > len(params):
+            return node
+        env = dict(zip(params, c.args))
+        env.update({k.arg: k.value for k in c.keywords})
+        if set(env) != set(params):
+            return node
+        body = [copy.deepcopy(st) for st in h.body]
+        if body and isinstance(body[0], ast.Expr) and isinstance(body[0].value, ast.Constant) and isinstance(body[0].value.value, str):
+            body = body[1:]
+        if any(isinstance(n, ast.Return) for st in body for n in ast.walk(st)):
+            return node
+        assigned = {t.id for st in body for n in ast.walk(st) if isinstance(n, ast.Assign) for t in n.targets if isinstance(t, ast.Name)}
+        if assigned & set(params):
+            return node
+        return [_Subst(env).visit(st) for st in body] or [ast.Pass()]
+
+
+def _method_ast(cls, name):
+    """(the method with private helper statements inlined, the helper methods it calls in expression position)"""
+    cdef = ast.parse(textwrap.dedent(inspect.getsource(cls))).body[0]
+    methods = {n.name: n for n in cdef.body if isinstance(n, ast.FunctionDef)}
+    if name not in methods:
+        raise Unsupported("%s has no method %s of its own" % (cls.__name__, name))
+    fn = _Inliner(methods, name).visit(copy.deepcopy(methods[name]))
+    ast.fix_missing_locations(fn)
+    helpers = []
+    for c in _calls(fn):
+        if isinstance(c.func, ast.Attribute) and isinstance(c.func.value, ast.Name) and c.func.value.id == "self" \
+                and c.func.attr in methods and c.func.attr != name and methods[c.func.attr] not in helpers:
+            helpers.append(methods[c.func.attr])
+    return fn, helpers
+
+
+def _resolve_str(node, module):
+    """a str constant, or a module-level name bound to a str"""
+    if _const_str(node):
+        return node.value
+    if isinstance(node, ast.Name) and isinstance(getattr(module, node.id, None), str):
+        return getattr(module, node.id)
+    return None
 
 
 def _calls(node):
@@ -85,12 +157,12 @@ def _encoding_ok(call, where, positional_index=None):
 # ------------------------------------------------------------------------------------------
 # csvfile
 
-def csv_facts():
+def _ast_csv_facts():
     import locale
 
     from flow.record.adapter import csvfile
     W = csvfile.CsvfileWriter
-    init = _fn_ast(W.__init__)
+    init, _ = _method_ast(W, "__init__")
     params = [a.arg for a in init.args.args]
     # open(path, "w", newline="") : which encoder the text file uses
     opens = [c for c in _calls(init) if isinstance(c.func, ast.Name) and c.func.id == "open"]
@@ -117,17 +189,18 @@ def csv_facts():
     default = None
     for n in ast.walk(init):
         if isinstance(n, ast.BoolOp) and isinstance(n.op, ast.Or) and len(n.values) == 2 \
-                and isinstance(n.values[0], ast.Name) and n.values[0].id == "lineterminator" and _const_str(n.values[1]):
+                and isinstance(n.values[0], ast.Name) and n.values[0].id == "lineterminator" \
+                and _resolve_str(n.values[1], csvfile) is not None:
             if default is not None:
                 raise Unsupported("CsvfileWriter.__init__: two defaults for lineterminator")
-            default = n.values[1].value
+            default = _resolve_str(n.values[1], csvfile)
     if default is None:
         if "lineterminator" in params:
             # a plain default value of the parameter
             defaults = dict(zip(reversed(params), reversed(init.args.defaults)))
             dv = defaults.get("lineterminator")
-            if _const_str(dv):
-                default = dv.value
+            if dv is not None and _resolve_str(dv, csvfile) is not None:
+                default = _resolve_str(dv, csvfile)
         if default is None:
             raise Unsupported("CsvfileWriter.__init__: default line terminator not found")
 
@@ -167,7 +240,7 @@ def csv_facts():
         raise Unsupported("CsvfileWriter.__init__: empty pattern in replacement table")
 
     # write(): csv.DictWriter(fp, rdict, lineterminator=...) and the test guarding writeheader()
-    wr = _fn_ast(W.write)
+    wr, _ = _method_ast(W, "write")
     rparam = wr.args.args[1].arg
     dws = [c for c in _calls(wr) if (isinstance(c.func, ast.Attribute) and c.func.attr == "DictWriter")
            or (isinstance(c.func, ast.Name) and c.func.id == "DictWriter")]
@@ -263,90 +336,104 @@ def csv_facts():
 # ------------------------------------------------------------------------------------------
 # line
 
-def line_facts():
+def _ast_line_facts():
     from flow.record.adapter import line
-    wr = _fn_ast(line.LineWriter.write)
-    # f"--[ RECORD {self.count} ]--\n"
-    hdr = None
-    vkey = None
-    for n in ast.walk(wr):
-        if isinstance(n, ast.JoinedStr):
-            vals = n.values
-            shape = ["F" if isinstance(v, ast.FormattedValue) else "C" for v in vals]
-            if any(isinstance(v, ast.FormattedValue) and (v.conversion != -1 or v.format_spec is not None) for v in vals):
-                raise Unsupported("LineWriter.write: f-string with conversion/format spec")
-            fvs = [v.value for v in vals if isinstance(v, ast.FormattedValue)]
-            if len(fvs) == 1 and isinstance(fvs[0], ast.Attribute) and fvs[0].attr == "count":
-                pre = "".join(v.value for v in vals[:shape.index("F")])
-                suf = "".join(v.value for v in vals[shape.index("F") + 1:])
-                if hdr is not None:
-                    raise Unsupported("LineWriter.write: two block-header f-strings")
-                hdr = (pre, suf)
-            elif shape == ["F", "C", "F", "C"] and isinstance(fvs[0], ast.Name) and isinstance(fvs[1], ast.Subscript):
-                if vkey is not None:
-                    raise Unsupported("LineWriter.write: two verbose-key f-strings")
-                vkey = (vals[1].value, vals[3].value)
-            else:
-                raise Unsupported("LineWriter.write: unrecognised f-string at line %d of the method" % n.lineno)
-    if hdr is None or vkey is None:
-        raise Unsupported("LineWriter.write: block header / verbose key f-string not found")
-    # "{{:>{width}}} = {{}}\n".format(width=width)
-    tpl = None
-    for c in _calls(wr):
-        if isinstance(c.func, ast.Attribute) and c.func.attr == "format" and _const_str(c.func.value) \
-                and [k.arg for k in c.keywords] == ["width"] and not c.args:
-            if tpl is not None:
-                raise Unsupported("LineWriter.write: two line templates")
-            tpl = c.func.value.value
-    if tpl is None:
-        raise Unsupported("LineWriter.write: line template `\"...\".format(width=...)` not found")
-    inst = tpl.format(width=7)
-    m = re.fullmatch(r"\{:>7\}([^{}]*)\{\}([^{}]*)", inst, re.S)
+    wr, helpers = _method_ast(line.LineWriter, "write")
+    scope = [wr] + helpers
+    S = "\x00COUNT\x00"
+
+    def is_count(x):
+        return isinstance(x, ast.Attribute) and x.attr == "count"
+
+    def hdr_of_format_call(c):
+        """<str>.format(count=self.count) / <str>.format(self.count) -> (pre, suf)"""
+        if not (isinstance(c, ast.Call) and isinstance(c.func, ast.Attribute) and c.func.attr == "format"):
+            return None
+        recv = _resolve_str(c.func.value, line)
+        if recv is None or not (any(is_count(a) for a in c.args) or any(is_count(k.value) for k in c.keywords)):
+            return None
+        if len(c.args) + len(c.keywords) != 1:
+            return None
+        try:
+            txt = recv.format(*[S for _ in c.args], **{k.arg: S for k in c.keywords})
+        except Exception:
+            return None
+        return tuple(txt.split(S)) if txt.count(S) == 1 else None
+
+    hdr = vkey = tpl = None
+    for fn in scope:
+        for n in ast.walk(fn):
+            if isinstance(n, ast.JoinedStr):
+                vals = n.values
+                shape = ["F" if isinstance(v, ast.FormattedValue) else "C" for v in vals]
+                if any(isinstance(v, ast.FormattedValue) and (v.conversion != -1 or v.format_spec is not None) for v in vals):
+                    raise Unsupported("LineWriter.write: f-string with conversion/format spec")
+                fvs = [v.value for v in vals if isinstance(v, ast.FormattedValue)]
+                if len(fvs) == 1 and is_count(fvs[0]):
+                    got = ("".join(v.value for v in vals[:shape.index("F")]), "".join(v.value for v in vals[shape.index("F") + 1:]))
+                    if hdr not in (None, got):
+                        raise Unsupported("LineWriter.write: two block headers")
+                    hdr = got
+                elif shape == ["F", "C", "F", "C"] and isinstance(fvs[0], ast.Name) and isinstance(fvs[1], ast.Subscript):
+                    if vkey is not None:
+                        raise Unsupported("LineWriter.write: two verbose-key f-strings")
+                    vkey = (vals[1].value, vals[3].value)
+                elif fvs and all(isinstance(x, ast.Name) for x in fvs):
+                    inst = "".join("7" if isinstance(v, ast.FormattedValue) else v.value for v in vals)
+                    if tpl not in (None, inst):
+                        raise Unsupported("LineWriter.write: two line templates")
+                    tpl = inst
+                else:
+                    raise Unsupported("LineWriter.write: unrecognised f-string at line %d of the method" % n.lineno)
+            elif isinstance(n, ast.Call):
+                got = hdr_of_format_call(n)
+                if got is not None:
+                    if hdr not in (None, got):
+                        raise Unsupported("LineWriter.write: two block headers")
+                    hdr = got
+                elif isinstance(n.func, ast.Attribute) and n.func.attr == "format" and _resolve_str(n.func.value, line) is not None \
+                        and [k.arg for k in n.keywords] == ["width"] and not n.args:
+                    inst = _resolve_str(n.func.value, line).format(width=7)
+                    if tpl not in (None, inst):
+                        raise Unsupported("LineWriter.write: two line templates")
+                    tpl = inst
+    if hdr is None or vkey is None or tpl is None:
+        raise Unsupported("LineWriter.write: block header / verbose key / line template not found")
+    m = re.fullmatch(r"\{:>7\}([^{}]*)\{\}([^{}]*)", tpl, re.S)
     if not m:
         raise Unsupported("LineWriter.write: line template %r is not `{:>width}<sep>{}<end>`" % tpl)
     sep, end = m.group(1), m.group(2)
-    # width = max(len(k + types[k]) for k in rdict) + 3   /   max(len(k) for k in rdict)
+    # <w> = max(len(k + types[k]) for k in rdict) + 3   /   max(len(k) for k in rdict)
     extra = None
     plain_width = False
-    for n in ast.walk(wr):
-        if isinstance(n, ast.Assign) and len(n.targets) == 1 and isinstance(n.targets[0], ast.Name) and n.targets[0].id == "width":
-            v = n.value
-            if isinstance(v, ast.BinOp) and isinstance(v.op, ast.Add) and isinstance(v.right, ast.Constant) \
-                    and isinstance(v.right.value, int) and _is_max_len(v.left, concat=True):
-                if extra is not None:
-                    raise Unsupported("LineWriter.write: two verbose width computations")
-                extra = v.right.value
-            elif _is_max_len(v, concat=False):
-                plain_width = True
-            else:
-                raise Unsupported("LineWriter.write: unrecognised width computation at line %d of the method" % n.lineno)
+    for fn in scope:
+        for n in ast.walk(fn):
+            if isinstance(n, ast.Assign) and len(n.targets) == 1 and isinstance(n.targets[0], ast.Name):
+                v = n.value
+                if isinstance(v, ast.BinOp) and isinstance(v.op, ast.Add) and isinstance(v.right, ast.Constant) \
+                        and isinstance(v.right.value, int) and _is_max_len(v.left, concat=True):
+                    if extra is not None:
+                        raise Unsupported("LineWriter.write: two verbose width computations")
+                    extra = v.right.value
+                elif _is_max_len(v, concat=False):
+                    plain_width = True
     if extra is None or not plain_width:
         raise Unsupported("LineWriter.write: width computations not found")
-    if not (0 <= extra < 1000):
-        raise Unsupported("LineWriter.write: width constant out of range")
-    # encodes: header .encode() ; lines fmt.format(key, value).encode(errors=...)
+    # encodes: header .encode() ; lines <fmt>.format(label, value).encode(errors=...)
     line_se = None
-    hdr_se = None
-    for c in _calls(wr):
-        if isinstance(c.func, ast.Attribute) and c.func.attr == "encode":
-            _encoding_ok(c, "LineWriter encode()", 0)
-            se = _se(_errors_arg(c, "LineWriter encode()", 1), "LineWriter encode()")
-            inner = c.func.value
-            if isinstance(inner, ast.JoinedStr):
-                hdr_se = se
-            elif isinstance(inner, ast.Call) and isinstance(inner.func, ast.Attribute) and inner.func.attr == "format" \
-                    and len(inner.args) == 2 and all(isinstance(a, ast.Name) for a in inner.args):
-                if line_se is not None:
-                    raise Unsupported("LineWriter.write: two line encodes")
-                line_se = se
-            else:
-                raise Unsupported("LineWriter.write: unrecognised .encode() receiver")
-    if line_se is None or hdr_se is None:
-        raise Unsupported("LineWriter.write: encode calls not found")
-    init = _fn_ast(line.LineWriter.__init__)
-    if not any(isinstance(c.func, ast.Name) and c.func.id == "open_path_or_stream" and len(c.args) >= 2
-               and _const_str(c.args[1]) and c.args[1].value == "wb" for c in _calls(init)):
-        raise Unsupported("LineWriter.__init__: file is not opened with open_path_or_stream(path, 'wb')")
+    for fn in scope:
+        for c in _calls(fn):
+            if isinstance(c.func, ast.Attribute) and c.func.attr == "encode":
+                _encoding_ok(c, "LineWriter encode()", 0)
+                se = _se(_errors_arg(c, "LineWriter encode()", 1), "LineWriter encode()")
+                inner = c.func.value
+                if isinstance(inner, ast.Call) and isinstance(inner.func, ast.Attribute) and inner.func.attr == "format" \
+                        and len(inner.args) == 2 and not inner.keywords and all(isinstance(a, ast.Name) for a in inner.args):
+                    if line_se is not None:
+                        raise Unsupported("LineWriter.write: two line encodes")
+                    line_se = se
+    if line_se is None:
+        raise Unsupported("LineWriter.write: the field line's encode call not found")
     return dict(hdr=hdr, vkey=vkey, sep=sep, end=end, extra=extra, se=line_se)
 
 
@@ -373,46 +460,30 @@ def _is_max_len(v, concat):
 # ------------------------------------------------------------------------------------------
 # text
 
-def text_facts():
+def _ast_text_facts():
     from flow.record.adapter import text
-    repl = list(text.REPLACE_LIST)
-    if not all(isinstance(p, tuple) and len(p) == 2 and all(isinstance(x, str) for x in p) and p[0] != "" for p in repl):
-        raise Unsupported("text.REPLACE_LIST is not a list of (non-empty str, str) pairs")
-    wr = _fn_ast(text.TextWriter.write)
+    repl = getattr(text, "REPLACE_LIST", None)
+    if repl is not None:
+        repl = list(repl)
+        if not all(isinstance(p, tuple) and len(p) == 2 and all(isinstance(x, str) for x in p) and p[0] != "" for p in repl):
+            raise Unsupported("text.REPLACE_LIST is not a list of (non-empty str, str) pairs")
+    wr, helpers = _method_ast(text.TextWriter, "write")
+    scope = [wr] + helpers
     se = None
     end = None
-    for n in ast.walk(wr):
-        if isinstance(n, ast.BinOp) and isinstance(n.op, ast.Add) and isinstance(n.right, ast.Constant) \
-                and isinstance(n.right.value, bytes) and isinstance(n.left, ast.Call) \
-                and isinstance(n.left.func, ast.Attribute) and n.left.func.attr == "encode":
-            if end is not None:
-                raise Unsupported("TextWriter.write: two `encode(...) + b'..'` expressions")
-            _encoding_ok(n.left, "TextWriter encode()", 0)
-            se = _se(_errors_arg(n.left, "TextWriter encode()", 1), "TextWriter encode()")
-            end = n.right.value.decode("latin-1")
+    for fn in scope:
+        for n in ast.walk(fn):
+            if isinstance(n, ast.BinOp) and isinstance(n.op, ast.Add) and isinstance(n.right, ast.Constant) \
+                    and isinstance(n.right.value, bytes) and isinstance(n.left, ast.Call) \
+                    and isinstance(n.left.func, ast.Attribute) and n.left.func.attr == "encode":
+                if end is not None:
+                    raise Unsupported("TextWriter.write: two `encode(...) + b'..'` expressions")
+                _encoding_ok(n.left, "TextWriter encode()", 0)
+                se = _se(_errors_arg(n.left, "TextWriter encode()", 1), "TextWriter encode()")
+                end = n.right.value.decode("latin-1")
     if end is None:
-        raise Unsupported("TextWriter.write: `buf.encode(...) + b'\\n'` not found")
-    encs = [c for c in _calls(wr) if isinstance(c.func, ast.Attribute) and c.func.attr == "encode"]
-    if len(encs) != 1:
-        raise Unsupported("TextWriter.write: expected exactly one .encode() call")
-    # the two branches: format_map(DefaultMissing(rec._asdict()))  /  repr(rec)
-    rparam = wr.args.args[1].arg
-    fm = [c for c in _calls(wr) if isinstance(c.func, ast.Attribute) and c.func.attr == "format_map"]
-    rp = [c for c in _calls(wr) if isinstance(c.func, ast.Name) and c.func.id == "repr"]
-    if len(fm) != 1 or len(rp) != 1 or not (len(rp[0].args) == 1 and isinstance(rp[0].args[0], ast.Name) and rp[0].args[0].id == rparam):
-        raise Unsupported("TextWriter.write: expected format_spec.format_map(...) and repr(%s)" % rparam)
-    arg = fm[0].args[0] if len(fm[0].args) == 1 else None
-    if not (isinstance(arg, ast.Call) and isinstance(arg.func, ast.Name) and arg.func.id == "DefaultMissing" and len(arg.args) == 1
-            and isinstance(arg.args[0], ast.Call) and isinstance(arg.args[0].func, ast.Attribute)
-            and arg.args[0].func.attr == "_asdict" and not arg.args[0].args and not arg.args[0].keywords):
-        raise Unsupported("TextWriter.write: format_map argument is not DefaultMissing(%s._asdict())" % rparam)
-    probe = text.DefaultMissing()["k"]
-    if not (isinstance(probe, str) and probe.count("k") == 1):
-        raise Unsupported("DefaultMissing.__missing__ does not wrap the key")
-    mo, mc = probe.split("k")
-    if text.DefaultMissing()["ab{c"] != mo + "ab{c" + mc:
-        raise Unsupported("DefaultMissing.__missing__ does not wrap the key uniformly")
-    return dict(repl=repl, se=se, end=end, missing=(mo, mc))
+        raise Unsupported("TextWriter.write: `<text>.encode(...) + b'\\n'` not found")
+    return dict(repl=repl, se=se, end=end)
 
 
 # ------------------------------------------------------------------------------------------
@@ -515,15 +586,77 @@ def reader_facts():
     return dict(sample=int(reads[0].args[0].value))
 
 
+def _cross_check(name, obs, recogniser, keys, notes):
+    """observed facts vs what the source says: contradiction -> fail closed; not recognised -> note"""
+    try:
+        src = recogniser()
+    except Unsupported as e:
+        notes.append("%s: source shape not recognised (%s); observed behaviour used" % (name, " ".join(str(e).split())[:160]))
+        return
+    for k in keys:
+        a, b = src.get(k), obs.get(k)
+        if k == "repl":
+            if a is None:
+                continue
+            a, b = sorted(a), sorted(b)
+        if a != b:
+            raise Unsupported("%s: the source says %s = %r but the writer behaves as %r" % (name, k, a, b))
+
+
+def _csv_newline_check(notes):
+    """newline='' of the CSV output file cannot be observed on this platform: read it from the source"""
+    from flow.record.adapter import csvfile
+    cdef = ast.parse(textwrap.dedent(inspect.getsource(csvfile.CsvfileWriter))).body[0]
+    opens = []
+    for c in _calls(cdef):
+        if isinstance(c.func, ast.Name) and c.func.id == "open":
+            mode = c.args[1] if len(c.args) > 1 else _kw(c, "mode")
+            if _const_str(mode) and "w" in mode.value:
+                opens.append(c)
+    if not opens:
+        notes.append("CsvfileWriter: no open(path, 'w', ...) call recognised; newline='' not cross-checked")
+        return
+    for op in opens:
+        nl = _kw(op, "newline")
+        if nl is None and len(op.args) > 5:
+            nl = op.args[5]
+        if not (_const_str(nl) and nl.value == ""):
+            raise Unsupported("CsvfileWriter: the output file is not opened with newline='' (the csv module's line "
+                              "terminators would be translated)")
+
+
+def csv_facts(notes):
+    obs = observe.observe_csv()
+    _cross_check("CsvfileWriter", obs, _ast_csv_facts, ("default", "repl", "se"), notes)
+    _csv_newline_check(notes)
+    return obs
+
+
+def line_facts(notes):
+    obs = observe.observe_line()
+    _cross_check("LineWriter", obs, _ast_line_facts, ("hdr", "vkey", "sep", "end", "extra", "se"), notes)
+    return obs
+
+
+def text_facts(notes):
+    obs = observe.observe_text()
+    _cross_check("TextWriter", obs, _ast_text_facts, ("repl", "se", "end"), notes)
+    return obs
+
+
 def gen_text():
-    c = csv_facts()
-    ln = line_facts()
-    tx = text_facts()
+    notes = []
+    c = csv_facts(notes)
+    ln = line_facts(notes)
+    tx = text_facts(notes)
     nm = norm_facts()
     rd = reader_facts()
     pairs = lambda tbl: ctlist("(%s, %s)" % (ctext(a), ctext(b)) for a, b in tbl)  # noqa: E731
     out = HEADER
     out += "From Coq Require Import List Bool NArith.\nImport ListNotations.\nFrom FR Require Import Csv.\nOpen Scope N_scope.\n\n"
+    out += "(* the writers' constants are read off the bytes the writers produce on probe records (factgen/_c20_observe.py) *)\n"
+    for nt in notes:
+        out += "(* note: %s *)\n" % nt.replace("*)", "* )").replace("(*", "( *").replace('"', "'")
     out += "(* flow/record/base.py RESERVED_FIELDS; adapter/csvfile.py CsvfileWriter; adapter/line.py LineWriter;\n"
     out += "   adapter/text.py TextWriter + REPLACE_LIST *)\n"
     out += "Definition gen_cfg : cfg := {|\n"
